@@ -473,10 +473,73 @@ func (w *World) Run(op Op, f func()) *Step {
 	return st
 }
 
+// inflightSwaps returns, for the application, real ask key -> placeholder key of every in-flight replacement.
+func inflightSwaps(app *objects.Application) map[string]string {
+	res := map[string]string{}
+	if app == nil {
+		return res
+	}
+	allocs := map[string]bool{}
+	for _, a := range app.GetAllAllocations() {
+		allocs[a.GetAllocationKey()] = true
+	}
+	for _, r := range app.GetAllRequests() {
+		if r.IsAllocated() && !allocs[r.GetAllocationKey()] && r.GetRelease() != nil {
+			res[r.GetAllocationKey()] = r.GetRelease().GetAllocationKey()
+		}
+	}
+	return res
+}
+
+// tagContext records rare history events ("context tags") in the monitor memory. They are part of the canonical
+// state and are appended to violation fingerprints, so that a known finding is identified by the history that fails.
+func (w *World) tagContext(op Op) {
+	if w.CC == nil || w.Dead != "" {
+		return
+	}
+	pc := w.part()
+	if pc == nil {
+		return
+	}
+	switch op.K {
+	case "TIMER_PH":
+		if len(inflightSwaps(w.findApp(op.A))) > 0 {
+			w.Mem["ctx:ph-timeout-during-swap"] = "1"
+		}
+	case "TIMER_STATE":
+		if len(inflightSwaps(w.findApp(op.A))) > 0 {
+			w.Mem["ctx:state-timeout-during-swap"] = "1"
+		}
+	case "RELEASE":
+		if ks := w.Model.Keys[op.A]; ks != nil {
+			sw := inflightSwaps(w.findApp(ks.App))
+			if _, ok := sw[op.A]; ok {
+				w.Mem["ctx:real-released-during-swap"] = "1"
+			}
+			for _, ph := range sw {
+				if ph == op.A {
+					w.Mem["ctx:placeholder-released-during-swap"] = "1"
+				}
+			}
+		}
+	case "APP_REMOVE":
+		if len(inflightSwaps(w.findApp(op.A))) > 0 {
+			w.Mem["ctx:app-removed-during-swap"] = "1"
+		}
+	case "ASK", "ASK_BOUND":
+		if spec := w.Scn.Ask(op.A); spec != nil {
+			if app := w.findApp(spec.App); app != nil && (app.IsFailing() || app.IsFailed()) {
+				w.Mem["ctx:ask-on-failing-app"] = "1"
+			}
+		}
+	}
+}
+
 // Apply sends one op to the real core and updates the shim model from the op and the core's answers.
 func (w *World) Apply(op Op) *Step {
 	s := w.Scn
 	m := w.Model
+	w.tagContext(op)
 	var f func()
 	switch op.K {
 	case "SCHEDULE":
